@@ -101,7 +101,8 @@ SEQ_CONSUMERS = [".len()", ".to_array().len()", ".sum()", ".sort().len()", ".to_
                  ".binary_search(12345678901234, cmp{int, int})", ".json_serialize()", ".sort_reverse().len()", ".rank_eq(5)", ".std()", ".geo_mean()", ".harmonic_mean()", ".mode()", ".unique().len()"]
 
 NUMERIC = ["digits({a}, {b})", "digits({a})", "{a} ** {b}", "pow({a}, {b})", "factorial({a})", "factorial({a}, {b})", "binom({a}, {b})", "multinom([{a}, {b}, {a}])", "permutation({a}, {b})",
-           "permutation({a}, {b}, 3)", "combination({a}, {b}, 3)", "combination({a}, {b}, {a})", "combination_with_replacement({a}, {b}, 3)", "'ab' * {a}", "[1, 2] * {a}", "([1, 2] * {a}).len()",
+           "permutation({a}, {b}, 3)", "combination({a}, {b}, 3)", "combination({a}, {b}, {a})", "combination_with_replacement({a}, {b}, 3)", "combination({a}, {a} - 1, 1)", "combination({a}, div_floor({a} * ({a} - 1), 2) - 1, 2)", "combination_with_replacement({a}, {a} - 1, 1)",
+           "permutation({a}, {a} - 1, 1)", "combination({a}, div_floor({a}, 2), 1)", "'ab' * {a}", "[1, 2] * {a}", "([1, 2] * {a}).len()",
            "([1, 2] * {a}).to_array().len()", "format({a}, '>{w}')", "format(1.5, '.{w}')", "format('x', '^{w}')", "format({a}, ',d')", "to_str({a} ** {s})", "({a} ** {s}).to_str().len()",
            "gcd({a}, {b})", "lcm({a}, {b})", "floor_root({a}, {s})", "ceil_root({a}, {s})", "floor_root(10 ** {s}, 3)", "chr({a})", "range({a}).len()", "range({a}).to_array().len()",
            "range({a}, {b}).sum()", "range(0, {a}, {s}).to_array().len()", "range({a}).mean()", "bit_and({a}, {b})", "{a} % {b}", "div_floor({a}, {b})", "{a} * {b}", "{a}.to_float()",
